@@ -317,6 +317,10 @@ def ochiHubbleSpectrum( w, wp1, wp2, Hs1, Hs2, lambda1, lambda2 ):
         firstPart = np.power( fourLambda * np.power( wp, 4 ), lambdaVal ) / \
             special.gamma( lambdaVal )
         expc = np.exp( -fourLambda * np.power( wp / w, 4 ) )
+        if expc == 0:
+            # far below the peak the cut-off has underflowed: the term is 0 to machine 
+            # precision, while 1 / w ** ( 4 * lambda + 1 ) may overflow ( 0 * inf )
+            return 0.0
         rst = firstPart * Hs * Hs / np.power( w, fourLambda * 4 ) * expc
         return rst
     
